@@ -22,6 +22,18 @@ pub open spec fn rs_from(g: ModuleGraph, cur: Url, seen: Set<&Url>, hops: nat) -
 pub open spec fn resolve_spec(g: ModuleGraph, s: Url) -> Url {
     rs_from(g, s, Set::<&Url>::empty().insert(&s), 0)
 }
+/// one unfolding of rs_from, case by case (used by the loop of `resolve` so that its proof does not depend on
+/// the solver unfolding the recursive definition by itself)
+pub proof fn lemma_rs_cases(g: ModuleGraph, cur: Url, seen: Set<&Url>, hops: nat)
+    ensures
+        hops >= 10 ==> rs_from(g, cur, seen, hops) == cur,
+        redirect_of(g, cur) is None ==> rs_from(g, cur, seen, hops) == cur,
+        redirect_of(g, cur) is Some && seen.contains(&redirect_of(g, cur).unwrap()) ==> rs_from(g, cur, seen, hops) == cur,
+        hops < 10 && redirect_of(g, cur) is Some && !seen.contains(&redirect_of(g, cur).unwrap())
+            ==> rs_from(g, cur, seen, hops) == rs_from(g, redirect_of(g, cur).unwrap(), seen.insert(&redirect_of(g, cur).unwrap()), hops + 1),
+{
+    reveal_with_fuel(rs_from, 2);
+}
 
 } // verus!
 verus! {
